@@ -336,13 +336,31 @@ func (s *Server) handleGetExport(w http.ResponseWriter, r *http.Request) {
 		return
 	}
 
-	pos, err := db.Export(r.Context(), w)
-	if err != nil {
+	cw := &countingResponseWriter{ResponseWriter: w}
+	pos, err := db.Export(r.Context(), cw)
+	if err != nil && cw.n > 0 {
+		// The status line has been sent already. Abort the response so that
+		// the client does not take what it received for a complete export.
+		log.Printf("http: %s %s: error: write snapshot: %s", r.Method, r.URL.Path, err)
+		panic(http.ErrAbortHandler)
+	} else if err != nil {
 		Error(w, r, fmt.Errorf("write snapshot: %w", err), http.StatusInternalServerError)
 		return
 	}
 
 	log.Printf("%s: snapshot successfully exported @ %s", litefs.FormatNodeID(s.store.ID()), pos.String())
+}
+
+// countingResponseWriter counts the bytes of the response body.
+type countingResponseWriter struct {
+	http.ResponseWriter
+	n int64
+}
+
+func (w *countingResponseWriter) Write(p []byte) (int, error) {
+	n, err := w.ResponseWriter.Write(p)
+	w.n += int64(n)
+	return n, err
 }
 
 func (s *Server) handlePostHalt(w http.ResponseWriter, r *http.Request) {
